@@ -393,6 +393,12 @@ func (rm *ResponseManager) finishTask(task *peertask.Task, p peer.ID, err error)
 	if !ok {
 		return
 	}
+	if response.networkError {
+		// a send failure was reported while the executor was running: the response stream is
+		// closed, nothing queued for this response (now or after a pause) can be sent any more
+		rm.terminateRequest(requestID)
+		return
+	}
 	if _, ok := err.(hooks.ErrPaused); ok {
 		response.state = graphsync.Paused
 		return
@@ -411,9 +417,7 @@ func (rm *ResponseManager) finishTask(task *peertask.Task, p peer.ID, err error)
 		return
 	}
 
-	if err == queryexecutor.ErrNetworkError || response.networkError {
-		// on a network error the response stream is closed and whatever the executor
-		// queued is dropped, so no message notification will ever close this response
+	if err == queryexecutor.ErrNetworkError {
 		rm.terminateRequest(requestID)
 		return
 	}
